@@ -1378,3 +1378,17 @@ def possibly_unbound(view):
                     continue
                 out.append((u, name))
     return out
+
+
+def group_condition(view, nodes, by_value=True):
+    """the condition under which *one of* `nodes` runs, measured from the last point every path to any of them shares"""
+    cfg = view.cfg
+    nodes = list(nodes)
+    ids = {n.id for n in nodes}
+    cands = [d for d in cfg.nodes if d.id not in ids and all(n.id in cfg.reachable(d.id) and view.dominated([n], [d]) for n in nodes)]
+    best = None
+    for d in cands:
+        if all(o.id == d.id or view.dominated([d], [o]) for o in cands):
+            best = d
+    start = [best.id] if best is not None else [cfg.entry.id]
+    return ("or", [path_condition(view, n, start=start, by_value=by_value) for n in nodes])
